@@ -32,7 +32,7 @@ def run(tier, seed):
     if tier == "thorough" and ok:
         ctx.coqchk()
     if ctx.harness_build():
-        world, progs, hist, stress = (32, 2, 5, 40) if tier == "quick" else (160, 12, 10, 300)
+        world, progs, hist, stress = (36, 2, 5, 40) if tier == "quick" else (160, 12, 10, 300)
         s = run_classified_leg(ctx, "c11-e2e", [seed, world, ctx.cases_dir, ctx.scratch, progs, hist, stress],
                                "state of the world after quit / drop / detach / restart", classify)
         if s is not None:
